@@ -99,13 +99,13 @@ def mirror_twin(ctx, R="R-C14-mirror-twin"):
     f = m["func"]
     w = m["while"]
     ctx.check(astq.in_texts(w.test, ("consumed<filt_len", "filt_len>consumed",)), "R-C14-walk-twin", f, w,
-              "the walk continues until the truncated filter is consumed", "walk condition is %s" % astq.text(w.test))
+              "the walk continues until the truncated filter is consumed", "walk condition is %s" % astq.text(w.test), structural=True)
     alt = [s for s in w.body if isinstance(s, ast.Assign) and astq.is_name(s.targets[0], "conj")]
     ctx.check(len(alt) == 1 and astq.text(alt[0].value) == "not conj", "R-C14-walk-twin", f, alt[0] if alt else MISSING(w),
-              "direct and mirrored segments alternate", "the direct/mirrored alternation is %s" % (astq.text(alt[0].value) if alt else None))
+              "direct and mirrored segments alternate", "the direct/mirrored alternation is %s" % (astq.text(alt[0].value) if alt else None), structural=True)
     clamp = [s for s in w.body if isinstance(s, ast.Assign) and astq.is_name(s.targets[0], "si")]
     ctx.check(len(clamp) == 1 and astq.in_texts(clamp[0].value, ("max(0,si)", "max(si,0)",)), "R-C14-walk-twin", f,
-              clamp[0] if clamp else MISSING(w), "the next start bin is clamped at 0", "start-bin clamp is %s" % (astq.text(clamp[0].value) if clamp else None))
+              clamp[0] if clamp else MISSING(w), "the next start bin is clamped at 0", "start-bin clamp is %s" % (astq.text(clamp[0].value) if clamp else None), structural=True)
 
 
 def nameflow(ctx, R="R-C14-nameflow"):
